@@ -438,7 +438,9 @@ class Harness:
         p = getattr(self.policy, "pm_kill_p", 0.0)
         if not p or self.killed or self.phase != "running" or self.in_wakeup:
             return
-        if self.policy.rnd_env.random() < (p if where == "in-restart" else p / 2.0):
+        if getattr(self.policy, "pm_where", where) != where:
+            return
+        if self.policy.rnd_env.random() < p:
             self.do_external("kill")
             self.preempted.append((where, ref, len(self.trace) - 1))
 
@@ -578,7 +580,7 @@ class RandomPolicy:
     (task exits / kills) and how eager the controller callbacks are relative to the other rx hops (ctrl_weight)."""
 
     def __init__(self, seed, burst_max=4, env_bias=0.5, ctrl_weight=1.0, eager_internal=False,
-                 kill_p=0.0, sleep_p=0.0, wake_p=0.3, max_sleeps=1, hold_asleep=False, pm_kill_p=0.0):
+                 kill_p=0.0, sleep_p=0.0, wake_p=0.3, max_sleeps=1, hold_asleep=False, pm_kill_p=0.0, pm_where="in-restart"):
         self.rnd = random.Random(seed)
         # calls into the controller from outside (G02): a separate stream, so that the schedules of the runs without
         # such calls do not depend on these parameters
@@ -589,6 +591,7 @@ class RandomPolicy:
         self.hold_asleep = hold_asleep
         # pm_kill_p: killController() may arrive while postMortemCheck (no lock) is about to restart / restarting an engine
         self.pm_kill_p = pm_kill_p
+        self.pm_where = pm_where        # "pm-entry": before the body of postMortemCheck; "in-restart": inside Engine.restart
         self.burst_max = burst_max
         self.env_bias = env_bias
         self.ctrl_weight = ctrl_weight
